@@ -117,7 +117,7 @@ PROPS["C06"] = {
         "lean": ["NB.Props.C06"],
         "gens": ["c06"],
         "profiles": ["release", "debug"],
-        "special": lambda ctx: __import__("c06").special(ctx),
+        "special": special.compose(lambda ctx: __import__("c06").special(ctx), special.nostd_special),
         "trusted": ["core::fmt::Formatter::pad_integral modelled from std's source (NB.Radix.padIntegral); cross-checked in-process against std's own formatting of u128/i128",
                     "core::str::from_utf8 modelled as the Unicode table 3-7 automaton (NB.Radix.utf8Valid)",
                     "general-radix OUTPUT path (to_radix_digits_le): digit level throughout — div_rem_digit, div_rem_ref (Knuth D), mulRef (mac3), cmp_slice are the C02/C03 models on digit vectors (NB.Model.RadixD, run by the driver; refinement theorems to_radix_le_refines & co. under P.ValidMul); the value-level NB.Model.Radix version is the intermediate layer of the proof only",
